@@ -30,7 +30,8 @@ def run(ctx):
     mcs += [dict(nd=2, maxq=2, mpm=5, flow=True, dynamic=True, rf=2), dict(nd=2, maxq=3, mpm=2, flow=False, dynamic=True)]
   for i, c in enumerate(mcs):
     rm.configure(dict(c, nr=1))
-    consts = relaycheck.consts_for(rm, ctx.pick(3, 4), ctx.pick(3, 4))
+    # (replication with the dynamic router: 66 M states at 4 items / 4 connection events - explored at 4 / 3)
+    consts = relaycheck.consts_for(rm, ctx.pick(3, 4), 3 if (c.get('rf', 1) > 1 and c.get('dynamic')) else ctx.pick(3, 4))
     res = relaycheck.model_check(ctx, 'Relay#%d' % i, consts, relaycheck.INV_C07)
     if res.violated:
       raise Machinery('Relay.tla violates %s: %s' % (res.violated, [a for a, _ in res.cex]))
